@@ -34,6 +34,7 @@ type zzWal struct {
 	failAppends  int // the next failAppends AppendAsync calls fail with an I/O error and store nothing
 	frozen       bool // set by a harness once the node has answered NewTerm: the log must not grow any more
 	racy         bool // Sync is a schedule point (concurrency harnesses)
+	syncWindow   bool // Sync covers what was appended when it STARTED; appends can land while it is in flight (schedule point + native pause)
 	yieldOnRead  bool // opening a forward reader is a schedule point ("wal.reader:<name>"): a round that reads the log can be overtaken
 	openFwd      int  // forward readers currently open
 	maxOpenFwd   int
@@ -88,6 +89,15 @@ func (w *zzWal) AppendAndSync(e *proto.LogEntry, cb func(error)) {
 func (w *zzWal) Sync(context.Context) error {
 	if w.racy {
 		vYield("wal.Sync:" + w.name)
+	}
+	if w.syncWindow {
+		snap := w.lastAppended
+		vYield("wal.sync-in-flight:" + w.name)
+		vSettle(3)
+		if snap > w.lastSynced {
+			w.lastSynced = snap
+		}
+		return nil
 	}
 	w.lastSynced = w.lastAppended
 	return nil
